@@ -157,6 +157,11 @@ def outer_config(start):
         d = os.path.dirname(d)
 
 
+# configuration files that cannot be parsed
+BROKEN_CONFIGS = ("[dead_code\nmin_severity = = \n", "[complexity]\nmax_complexity = \n", "[[[\n", "[complexity]\nmax_complexity = 10\n[complexity]\nmax_complexity = 12\n",
+                  "complexity = {\n")
+
+
 SEV_LETTER = {"critical": "c", "warning": "w", "info": "i"}
 RANK = {"info": 1, "warning": 2, "critical": 3}
 
@@ -175,6 +180,10 @@ def run(tier, seed, replay=None):
         "WHERE a configuration file is looked for is C17's subject; here only layouts in which the project's configuration is unambiguous are used (at most one "
         "file on the way from the target directory up to the scratch root, none above it — checked) and the claim is the gate's: the threshold is that file's "
         "max_complexity (else 10), not the one of a file lying below or beside the target; the flag matrix passes --config explicitly",
+        "which analyses 'could not run' on a target / configuration is established by `pyscn analyze --select <analysis>` on the same target and configuration (no report, "
+        "non-zero status) together with check's own failure lines; for an unparsable configuration file this is applied to the analyses that read it (complexity, dead code, "
+        "clones) — check's dependency walk reads no configuration (its limits are flags), so whether it ran is taken from the tool alone; a single non-Python FILE named as "
+        "the target is not used as a scenario (whether check may analyse it is a file-selection matter, F57)",
         "the gate severity is `critical` (check has no severity flag; that a config `[dead_code] min_severity` cannot change it is a "
         "configuration-precedence matter examined under C17, not a gate matter)",
     ]
@@ -332,40 +341,127 @@ def run(tier, seed, replay=None):
                     res.violation("check prints dead-code violations %s, analyze reports %s" % (sorted(pdead), sorted(want_dead)), info)
                 elif pcyc != want_cyc:
                     res.violation("check prints cycles %s, analyze reports %s" % (sorted(map(sorted, pcyc)), sorted(map(sorted, want_cyc))), info)
-        # "…or when an analysis could not run": a missing --config file makes the config-reading analyses fail (complexity, dead code,
-        # clones) while the dependency check still runs.  WHICH analyses failed is read from the tool's own failure lines; the model
-        # then says what the exit status must be.
+        # "…or when an analysis could not run", for every combination of --select and of the allow / limit flags: the CAUSES for which an analysis
+        # cannot run (the target does not exist, a directory without any Python file, a configuration file that cannot be parsed — named with
+        # --config or discovered in the target) × every subset of the selection × the allow / limit flags (an allow flag allows FINDINGS, it cannot
+        # turn a missing analysis into a pass).  WHICH analyses could not run is established INDEPENDENTLY of what `check` prints: by
+        # `pyscn analyze --select <a>` on the same target and configuration (the property's own reference command), and in addition by the tool's
+        # own failure lines (what it admits must count as well).  The model then says what the exit status must be; the property's clause
+        # ("non-zero when an analysis could not run") is also applied directly, so that it does not depend on the model driver.
         root = os.path.join(tmp, "err")
         write_project(os.path.join(root, "proj"), [2], [], 1)
         with open(os.path.join(root, "unparsable.py"), "w") as f:
             f.write("def f(:\n  (((\n")
+        os.makedirs(os.path.join(root, "empty_dir"))
+        os.makedirs(os.path.join(root, "no_python", "docs"))
+        for fn, text in (("docs/readme.txt", "nothing to analyse here\n"), ("data.json", "{}\n"), ("Makefile", "all:\n")):
+            with open(os.path.join(root, "no_python", fn), "w") as f:
+                f.write(text)
+        broken_text = rng.choice(BROKEN_CONFIGS)
+        with open(os.path.join(root, "broken.toml"), "w") as f:
+            f.write(broken_text)
+        write_project(os.path.join(root, "proj_broken_cfg"), [2], [], 1)
+        with open(os.path.join(root, "proj_broken_cfg", ".pyscn.toml"), "w") as f:
+            discovered_text = rng.choice(BROKEN_CONFIGS)
+            f.write(discovered_text)
+        # (name, kind, target, configuration words).  kind "files": nothing can be analysed, by any analysis.  kind "config": the analyses that read
+        # the configuration cannot run; the dependency check of `check` takes its limits from flags only and reads no configuration, so whether it ran
+        # is taken from the tool (analyze refuses the configuration as a whole, which says nothing about check's dependency walk)
+        causes = [("missing-target", "files", "no_such_dir", []), ("empty-directory", "files", "empty_dir", []), ("no-python-file", "files", "no_python", []),
+                  ("unparsable-explicit-config", "config", "proj", ["--config", os.path.join(root, "broken.toml")]),
+                  ("unparsable-discovered-config", "config", "proj_broken_cfg", [])]
+        SCENARIO_FILES = {"missing-target": "the target `no_such_dir` does not exist", "empty-directory": "the target `empty_dir` is an empty directory",
+                          "no-python-file": "the target `no_python` holds docs/readme.txt, data.json, Makefile and no Python file",
+                          "unparsable-explicit-config": {"proj": "cxmod.py (complexity 2), deadmod.py (no dead code), cyc0a.py <-> cyc0b.py", "broken.toml": broken_text},
+                          "unparsable-discovered-config": {"proj_broken_cfg": "cxmod.py (complexity 2), deadmod.py (no dead code), cyc0a.py <-> cyc0b.py",
+                                                           "proj_broken_cfg/.pyscn.toml": discovered_text}}
+        four = ANALYSES[:4]
+        err_sels = [None, "default-with-clones"] + [[a for a in four if m >> four.index(a) & 1] for m in range(1, 16)]
+        fixed_extras = [[], ["--max-cycles", "1"], ["--allow-circular-deps", "--allow-dead-code"], ["--allow-dead-code"], ["--allow-circular-deps"]]
+        pool_extras = [["--allow-dead-code", "-q"], ["--allow-dead-code", "--max-cycles", "2"], ["--allow-circular-deps", "--max-cycles", "1"],
+                       ["--max-complexity", "3", "--allow-dead-code"], ["-q"], ["--allow-circular-deps", "-q", "--allow-dead-code"],
+                       ["--allow-circular-deps", "--max-complexity", "25"]]
+        hist.update({"could_not_run_runs": 0, "could_not_run_by_cause": {c[0]: 0 for c in causes}, "could_not_run_cause_skipped": 0,
+                     "could_not_run_with_allow_dead_code": 0, "could_not_run_with_allow_circular_deps": 0, "could_not_run_quiet": 0,
+                     "could_not_run_only_allowed_analysis_selected": 0, "could_not_run_established_by": {"analyze": 0, "tool-line-only": 0},
+                     "could_not_run_not_announced_by_check": 0})
         err_lines, err_meta = [], []
-        for sel in (["complexity", "deps"], ["deadcode", "deps"], ["deps"], ["complexity"], ["clones", "deps"], ["complexity", "deadcode", "deps"],
-                    ["clones"], ["deadcode"], None):
-            for extra in ([], ["--max-cycles", "1"], ["--allow-circular-deps", "--allow-dead-code"]):
-                args = (["check", "--skip-clones"] if sel is None else ["check", "--select", ",".join(sel)]) + extra
-                # a target that does not exist: every selected analysis fails to run; WHICH ones count is the gate's business
-                rc, out, err = C.pyscn(args + ["no_such_dir"], cwd=root)
+        for cname, ckind, target, cfgwords in causes:
+            # ground truth from the reference command: which analyses cannot run on this target / configuration
+            cannot = {}
+            for a in four:
+                rc_a, data_a, err_a = C.pyscn_json([target], root, extra=["--select", a] + cfgwords)
                 nruns += 1
-                failed = {"complexity": "Complexity analysis failed" in err, "deadcode": "Dead code analysis failed" in err,
-                          "clones": "Clone detection failed" in err, "deps": "Circular dependency check failed" in err}
-                selmask = "-" if sel is None else "".join("1" if a in sel else "0" for a in ANALYSES)
-                mcyc = 1 if "--max-cycles" in extra else 0
-                line = "gate %s 10 0 %d %d %d %d %s %s %s %s 0" % (selmask, int("--allow-dead-code" in extra), int(sel is None), int("--allow-circular-deps" in extra), mcyc,
-                                                              "E" if failed["complexity"] else "0:2", "E" if failed["deadcode"] else "c:",
-                                                              "E" if failed["clones"] else "0", "E" if failed["deps"] else "1")
-                err_lines.append(line)
-                err_meta.append((args, rc, err, failed))
-        want = C.driver_batch(err_lines) if os.path.exists(C.driver_path()) else []
-        for line, w, (args, rc, err, failed) in zip(err_lines, want, err_meta):
+                cannot[a] = (rc_a != 0 and data_a is None)
+            expected_to_fail = four if ckind == "files" else four[:3]
+            if not all(cannot[a] for a in expected_to_fail):
+                # the scenario does not do what it was built for (analyze CAN run there): nothing is claimed about it
+                hist["could_not_run_cause_skipped"] += 1
+                res.notes.append("could-not-run scenario %s skipped: `analyze` can run %s there" % (cname, [a for a in expected_to_fail if not cannot[a]]))
+                continue
+            if ckind == "config":
+                cannot["deps"] = None
+            extras = fixed_extras + pool_extras if tier != "quick" else None
+            for sel in err_sels:
+                for extra in (extras or fixed_extras + [rng.choice(pool_extras)]):
+                    if sel is None:
+                        args = ["check", "--skip-clones"]
+                    elif sel == "default-with-clones":
+                        args = ["check"]
+                    else:
+                        form = "long" if rng.random() < 0.6 else rng.choice(FORMS[1:])
+                        args = ["check"] + select_args(sel, "lower", form, rng)[0]
+                        hist["select_spelling"]["lower"] += 1
+                        hist["select_form"][form] += 1
+                    args = args + extra + cfgwords
+                    rc, out, err = C.pyscn(args + [target], cwd=root)
+                    nruns += 1
+                    admitted = {"complexity": "Complexity analysis failed" in err, "deadcode": "Dead code analysis failed" in err,
+                                "clones": "Clone detection failed" in err, "deps": "Circular dependency check failed" in err}
+                    failed = {a: bool(admitted[a] or cannot[a]) for a in four}
+                    enabled = {a: (a in ("complexity", "deadcode") or (a == "clones" and sel == "default-with-clones")) if not isinstance(sel, list) else a in sel
+                               for a in four}
+                    selmask = "-" if not isinstance(sel, list) else "".join("1" if a in sel else "0" for a in ANALYSES)
+                    mcyc = int(extra[extra.index("--max-cycles") + 1]) if "--max-cycles" in extra else 0
+                    mcx = int(extra[extra.index("--max-complexity") + 1]) if "--max-complexity" in extra else None
+                    line = "gate %s %d %d %d %d %d %d %s %s %s %s 0" % (selmask, 10 if mcx is None else mcx, int(mcx is not None), int("--allow-dead-code" in extra),
+                                                                    int("--skip-clones" in args), int("--allow-circular-deps" in extra), mcyc,
+                                                                    "E" if failed["complexity"] else "0:2", "E" if failed["deadcode"] else "c:",
+                                                                    "E" if failed["clones"] else "0", "E" if failed["deps"] else "1")
+                    err_lines.append(line)
+                    err_meta.append((args + [target], rc, err, failed, admitted, enabled, cname, extra, dict(cannot)))
+        want = C.driver_batch(err_lines) if os.path.exists(C.driver_path()) else [None] * len(err_lines)
+        for line, w, (args, rc, err, failed, admitted, enabled, cname, extra, cannot) in zip(err_lines, want, err_meta):
+            info = {"could_not_run_scenario": cname, "scenario_files": SCENARIO_FILES[cname], "flags": args, "exit": rc, "model_line": line, "could_not_run": [a for a in four if failed[a]],
+                    "admitted_by_check": [a for a in four if admitted[a]], "stderr": err[-600:]}
+            hist["could_not_run_runs"] += 1
+            hist["could_not_run_by_cause"][cname] += 1
+            hist["could_not_run_with_allow_dead_code"] += int("--allow-dead-code" in extra)
+            hist["could_not_run_with_allow_circular_deps"] += int("--allow-circular-deps" in extra)
+            hist["could_not_run_quiet"] += int("-q" in extra)
+            gating_failed = [a for a in ("complexity", "deadcode", "deps") if enabled[a] and failed[a]]
+            allowed = {"deadcode": "--allow-dead-code" in extra, "deps": "--allow-circular-deps" in extra or "--max-cycles" in extra, "complexity": False}
+            if gating_failed and all(allowed[a] for a in gating_failed):
+                hist["could_not_run_only_allowed_analysis_selected"] += 1
+            for a in gating_failed:
+                hist["could_not_run_established_by"]["analyze" if cannot[a] else "tool-line-only"] += 1
+                if not admitted[a]:
+                    hist["could_not_run_not_announced_by_check"] += 1
+            # the property's clause, directly: a selected gating analysis that could not run -> non-zero, whatever the allow flags say
+            if gating_failed and rc == 0:
+                diffs += 1
+                res.violation("pyscn %s: exit 0 although the selected %s analysis could not run (%s; `pyscn analyze --select <analysis>` cannot run it on the same "
+                              "target / configuration either)" % (" ".join(args), " and ".join(gating_failed), cname), info)
+                continue
+            if w is None:
+                continue
             exp_rc = 0 if w == "1" else 1
-            clones_on = ("clones" in args[2].split(",")) if "--select" in args else ("--skip-clones" not in args)
-            if exp_rc == 0 and clones_on and failed["clones"]:
+            if exp_rc == 0 and enabled["clones"] and failed["clones"]:
                 # the property (specExitZero): a selected analysis that could not run fails the gate — also the clone analysis
                 if rc == 0:
                     k = C.classify(PID, {"kind": "clone-analysis-error-ignored"})
                     if k:
-                        res.known_finding(k, "(`pyscn %s no_such_dir` exits 0)" % " ".join(args))
+                        res.known_finding(k, "(`pyscn %s` exits 0)" % " ".join(args))
                         continue
                     res.violation("pyscn %s: exit 0 although the clone analysis was selected and could not run" % " ".join(args),
                                   {"signature": {"kind": "clone-analysis-error-ignored"}, "flags": args, "exit": rc, "stderr": err[-600:]})
@@ -373,12 +469,11 @@ def run(tier, seed, replay=None):
                 exp_rc = 1
             hist["exit0" if rc == 0 else "exit1"] += 1
             hist["analysis_failed_runs"] = hist.get("analysis_failed_runs", 0) + (1 if any(failed.values()) else 0)
-            nontrivial.add(line + "|err")
+            nontrivial.add(line + "|err|" + cname + "|" + " ".join(args))
             if rc != exp_rc:
                 diffs += 1
-                res.violation("pyscn %s: exit %d although it reported %s as failed; the gate model says %d" %
-                              (" ".join(args), rc, [k for k, v in failed.items() if v], exp_rc),
-                              {"project": "the target directory does not exist", "flags": args, "exit": rc, "model_line": line, "stderr": err[-600:]})
+                res.violation("pyscn %s: exit %d although %s could not run (%s); the gate model says %d" %
+                              (" ".join(args), rc, [k for k, v in failed.items() if v], cname, exp_rc), info)
         # an explicit --config that does not exist: the command fails before any analysis (C19_config_error)
         for sel in (["complexity"], ["clones"], ["deps"], None):
             args = (["check"] if sel is None else ["check", "--select", ",".join(sel)]) + ["--config", os.path.join(root, "missing.toml"), "proj"]
@@ -592,6 +687,9 @@ def run(tier, seed, replay=None):
         "rule": "projects sitting on each boundary (a function of complexity max-1/max/max+1 for the flag, config and default thresholds; "
                 "dead code none/critical/warning-only; 0/1/2 import cycles) × seeded sample of the matrix --select subset × --max-complexity "
                 "× config (max_complexity / min_severity) × --allow-dead-code × --max-cycles × --allow-circular-deps; every run is distinct; "
+                "analysis could not run: target missing / empty directory / directory without Python files / unparsable configuration (--config or discovered) × every "
+                "subset of --select (and the default selection with and without clones) × --allow-dead-code / --allow-circular-deps / both / --max-cycles / -q / "
+                "--max-complexity, judged against what `analyze --select <analysis>` can run on the same target; "
                 "the --select value typed in every accepted way (letter case per member, -s / --select=a,b / repeated flag); "
                 "discovered configuration: project configuration in the target / its parent / absent (.pyscn.toml or pyproject.toml) × 0-2 sub-directories with a "
                 "configuration file of their own (looser / stricter, sorting before / after the other files, one level deeper) × functions on every threshold in play "
